@@ -51,6 +51,7 @@ def gen_tree(rnd, nfiles=3, stmts=(0, 12), structured=False, idclass="none", fra
     must_place = list(pool) if pool else []
     rnd.shuffle(must_place)
     nmissing = 0
+    spelling = {}
     names = []
     for fi in range(nfiles):
         depth = rnd.randrange(0, 3)
@@ -64,8 +65,17 @@ def gen_tree(rnd, nfiles=3, stmts=(0, 12), structured=False, idclass="none", fra
         gf.raw("// %s file %d%s" % (label, fi, e))
         n = rnd.randrange(stmts[0], stmts[1] + 1)
         complete = idclass != "none" and rnd.random() < complete_prob
+        # one file in ten spells every invocation with layout between the name and the `!`, and holds nothing else
+        spaced = rnd.random() < 0.1
+        spelling[name] = spaced
         for si in range(n):
             f = safe_feat(rnd, structured)
+            if spaced:
+                f["bang"] = rnd.choice(gen.BANG_SPACED)
+                if f["msg"] == "macrotext":
+                    f["msg"] = "plain"
+                if f["pre"] == "stmt":
+                    f["pre"] = "indent"
             if f["post"] == "eof":
                 f["post"] = "semi"
             with_id = idclass != "none" and (complete or rnd.random() < frac_with_id)
@@ -96,7 +106,7 @@ def gen_tree(rnd, nfiles=3, stmts=(0, 12), structured=False, idclass="none", fra
                 existing.append(rid)
             else:
                 nmissing += 1
-            if rnd.random() < 0.4:
+            if rnd.random() < 0.4 and not spaced:
                 gf.raw("    " + gen.filler(rnd, e))
                 gf.newline()
         t.gfs[name] = gf
@@ -106,6 +116,8 @@ def gen_tree(rnd, nfiles=3, stmts=(0, 12), structured=False, idclass="none", fra
         gf = t.gfs[name]
         for rid in must_place:
             f = dict(gen.NEUTRAL)
+            if spelling.get(name):
+                f["bang"] = "sp"
             kv_ref = ("valid", str(rid), 0) if structured else None
             if not structured:
                 f["ref"] = "valid"
